@@ -108,6 +108,21 @@ def builders(model):
                                 pw(I, w, 3)))
         B['expr:Power2 + vector[%s]' % t] = lambda I, w=w: I.binop(
             ast.Add, pw(I, w), sym_elem(X(w), 'v'))
+        # mixed linear / nonlinear operands, in both orders
+        B['expr:Multiply + Power2[%s]' % t] = lambda I, w=w: I.binop(
+            ast.Add, mul(I, w), pw(I, w))
+        B['expr:Power2 + Multiply[%s]' % t] = lambda I, w=w: I.binop(
+            ast.Add, pw(I, w), mul(I, w))
+        B['expr:Multiply - Power3[%s]' % t] = lambda I, w=w: I.binop(
+            ast.Sub, mul(I, w), pw(I, w, 3))
+        B['expr:Multiply o Power2[%s]' % t] = lambda I, w=w: I.binop(
+            ast.Mult, mul(I, w), pw(I, w))
+        B['expr:(Multiply + Power2) o Multiply[%s]' % t] = (
+            lambda I, w=w: I.binop(ast.Mult, I.binop(
+                ast.Add, mul(I, w), pw(I, w)), mul(I, w, 'n')))
+        B['OperatorPointwiseProduct[Multiply, Power3][%s]' % t] = (
+            lambda I, w=w: inst(I, 'OperatorPointwiseProduct', mul(I, w),
+                                pw(I, w, 3)))
     # block operators with nonlinear blocks
     def two(I):
         return pw(I, 'const', 2), pw(I, 'const', 3)
